@@ -8,12 +8,44 @@
 
 namespace etl {
 
+namespace detail {
+/// n1/d1 < n2/d2 (d1, d2 > 0) by continued-fraction expansion: no product is formed, so nothing can overflow
+[[nodiscard]] constexpr auto ratio_less(intmax_t n1, intmax_t d1, intmax_t n2, intmax_t d2) noexcept -> bool
+{
+    if ((n1 < 0) != (n2 < 0)) {
+        return n1 < 0;
+    }
+    if (n1 < 0) { // both negative: a < b <=> -b < -a
+        auto const t1 = -n2;
+        auto const t2 = d2;
+        n2            = -n1;
+        d2            = d1;
+        n1            = t1;
+        d1            = t2;
+    }
+    while (true) {
+        if (n1 / d1 != n2 / d2) {
+            return n1 / d1 < n2 / d2;
+        }
+        auto const r1 = n1 % d1;
+        auto const r2 = n2 % d2;
+        if (r1 == 0 or r2 == 0) {
+            return r2 != 0;
+        }
+        n1 = d2; // r1/d1 < r2/d2 <=> d2/r2 < d1/r1
+        n2 = d1;
+        d1 = r2;
+        d2 = r1;
+    }
+}
+} // namespace detail
+
 /// \brief Compares two ratio objects for equality at compile-time. If the ratio
 /// R1 is less than the ratio R2, provides the member constant value equal true.
 /// Otherwise, value is false.
 /// \ingroup ratio
 template <typename R1, typename R2>
-struct ratio_less : bool_constant<(R1::num * R2::den < R2::num * R1::den)> { };
+struct ratio_less : bool_constant<detail::ratio_less(R1::num, R1::den, R2::num, R2::den)> { };
 
 /// \ingroup ratio
 template <typename R1, typename R2>
